@@ -102,6 +102,8 @@ def graph_conformance(tier, seed):
         st.append(_random(b, seed + 1000, 12 * scale, 500, faultp=0.02, ns=2, np=1, nw=1, maxobjs=8))
         st.append(_random(b, seed + 2000, 6 * scale, 400, faultp=0.0, ns=3, np=0, nw=0, maxobjs=14))
         st.append(_random(b, seed + 3000, 8 * scale, 500, faultp=0.01, ns=2, np=0, nw=1, maxobjs=8, auto=1, family='a'))
+        # everything at once: cleaning actions that allocate while automatic collections are due, weak pointers, faults
+        st.append(_random(b, seed + 6000, 8 * scale, 500, faultp=0.005, ns=2, np=1, nw=1, maxobjs=8, auto=1, clean=1, family='a'))
     return st
 
 
